@@ -88,6 +88,15 @@ func undefine(forms []refeval.Val) {
 	}
 }
 
+var formNames = map[string]bool{}
+
+func init() {
+	for _, n := range strings.Fields("progn prog1 if when unless cond case and or let let* setq lambda function funcall apply mapcar defun " +
+		"dolist dotimes do do* values multiple-value-bind multiple-value-list quote + - * 1+ list cons car cdr length < = not null eq") {
+		formNames[n] = true
+	}
+}
+
 func features(forms []refeval.Val) (kinds map[string]bool, depth int) {
 	kinds = map[string]bool{}
 	var walk func(v refeval.Val, d int)
@@ -99,7 +108,7 @@ func features(forms []refeval.Val) (kinds map[string]bool, depth int) {
 		if d > depth {
 			depth = d
 		}
-		if hd, isSym := l[0].(refeval.Sym); isSym && hd != "vt:mark" {
+		if hd, isSym := l[0].(refeval.Sym); isSym && formNames[string(hd)] {
 			kinds[string(hd)] = true
 		}
 		for _, e := range l {
@@ -165,7 +174,7 @@ func opts() proggen.Opts {
 	return proggen.Opts{
 		MaxDepth:       6,
 		MarkOdds:       5,
-		NoValuesInInit: true, // see finding C01-F1 (let binds the values object; pinned by the suite)
+		NoValuesInInit: h.ExclOn("values-object-bound"), // finding C01-F1 (let binds the values object; pinned by the suite)
 	}
 }
 
@@ -183,4 +192,5 @@ func TestC01(t *testing.T) {
 		"Non-trivial: >= 3 form kinds, depth >= 3, >= 2 trace events and one of setq/lambda/loop/multiple values/funcall/mapcar. Distinct by program text.")
 	h.Assume("internal/refeval implements the language definition for this subset (it is ~600 lines written from the definition, not from slip)")
 	h.RunProp(t, core, h.N(6000, 250000))
+	h.RunProp(t, quote, h.N(6000, 200000))
 }
